@@ -273,7 +273,7 @@ def run(tier, V):
     cov = {'evaluations': n, 'distinct_nontrivial': n - forms.get('x', 0), 'forms': forms, 'content_kinds': kinds,
            'rule': ('%d cases: contents over bytes 1..255 (ASCII / UTF-8 / arbitrary bytes) with directed boundaries (line lengths around 128, 1024, 2048, 4096, 8192; running sums crossing the 4096-byte write '
                     'batch at -1/0/+1; file sizes around k*1024 and 128*2^k; line counts 0,1,2,511..513,1023..1025,2049; with/without final newline) x operation (w!, a,bw!, w own path, wq, %%p, r in the middle + w, vi :w, vi x-u-:w, :xa and autowrite-at-quit of a buffer that is not the current one, :e! after the file changed on disk, a file read from a named pipe fed in bursts) '
-                    'x previous target (absent/shorter/equal/longer) x (15%%) one write() cut short by the kernel.  expected bytes computed from the input alone.  every case is distinct (seeded) and non-trivial (a file is written or printed and compared).' % n),
+                    'x previous target (absent/shorter/equal/longer) x (15%%) one write() cut short by the kernel (the rest must follow; or an error follows instead, and then no success may be reported).  expected bytes computed from the input alone.  every case is distinct (seeded) and non-trivial (a file is written or printed and compared).' % n),
            'samples': [{'desc': r[3], 'form': r[4]} for r in res[:5]]}
     assumptions = ['NUL bytes are excluded (the statement says NUL-free)', 'vi-mode forms are used with valid UTF-8 contents only',
                    'short writes and failing system calls belong to C03']
